@@ -48,7 +48,7 @@ class NeedChoice(Undecidable):
     """A test could not be evaluated and no decision for it was supplied."""
 
 
-def execute(fn_node, env, sub=None, call=None, attr=None, body=None, on_store=None, on_expr=None, choices=None):
+def execute(fn_node, env, sub=None, call=None, attr=None, body=None, on_store=None, on_expr=None, choices=None, result=None):
     """Trace [(stmt, env snapshot)] of the statements executed; the last one is the Return / Raise reached (if any)."""
     env = dict(env)
     trace = []
@@ -144,8 +144,10 @@ def execute(fn_node, env, sub=None, call=None, attr=None, body=None, on_store=No
                     except Undecidable:
                         env.pop(st.target.id, None)
             elif isinstance(st, (ast.Return, ast.Raise)):
-                if on_expr is not None and isinstance(st, ast.Return) and st.value is not None:
-                    on_expr(st.value, env, value)
+                if isinstance(st, ast.Return) and st.value is not None and (on_expr is not None or result is not None):
+                    rv = value(st.value) if result is not None else on_expr(st.value, env, value)
+                    if result is not None:
+                        result.append(rv)
                 raise _Return()
             elif isinstance(st, ast.Break):
                 raise _Break()
